@@ -100,7 +100,7 @@ PROPS = {
         "rule": "same generated triples as C03, every value annotated at its type in both modes (from_parser true/false), one near-miss per value, the three allowances, Number literals at every numeric type; every request non-trivial",
         "trusted": ["Wire.annotate mirrors IDLValue::annotate_type by hand (HashMap of record fields: last binding wins)"],
         "assumptions": ["shares the harness run of C03 (wire.annotate and wire.roundtrip ops)"],
-        "partial": ["annotate_roundtrip for all well-typed values is not yet a theorem; proved: the allowances, rejection of the named near-miss kinds, leaf round trips"],
+        "partial": ["proved for all inputs: what annotation returns is a canonical value of the type; annotate, encode, decode returns the annotated value; annotating a canonical value of the type succeeds and returns it (blob spelling aside). Not a theorem: that annotating an arbitrary accepted input (numbers from the parser, fields out of order, the three allowances) keeps its meaning - stated only through the canonical-value theorems; rejection is proved for the named near-miss kinds only"],
     },
     "C14": {
         "profiles": ["debug"],
